@@ -112,6 +112,8 @@ def _recorder_model(ctx: Ctx, c, init: FunctionInfo, reg: FunctionInfo) -> None:
     # the configured field table: the default one (fields=None), an explicitly empty one (only the extra columns are wanted) and a custom one
     configs = [(None, extra, only, best) for extra in (None, {"Extra": Sym("EXTRAFN")}) for only in (False, True) for best in (False, True)]
     configs += [(cfg, extra, False, True) for cfg in ({}, {"Custom": Sym("CUSTOMFN")}) for extra in (None, {"Extra": Sym("EXTRAFN")})]
+    # an extra field named like a default column replaces that column: still one header cell and one row cell per column of the mapping
+    configs += [(None, {"Phenotype": Sym("EXTRAFN")}, False, True)]
     for fields_cfg, extra, only, best in configs:
         for _once in (0,):
             for _once2 in (0,):
@@ -141,17 +143,23 @@ def _recorder_model(ctx: Ctx, c, init: FunctionInfo, reg: FunctionInfo) -> None:
                 except Budget:
                     und = "too many interpretations"
                     continue
-                results[(bool(extra), only, best, None if fields_cfg is None else tuple(fields_cfg))] = (runs, it.prelude_len, list(it.envs))
+                gkey = ("<override>",) if (extra and "Phenotype" in extra) else (None if fields_cfg is None else tuple(fields_cfg))
+                results[(bool(extra) and "Extra" in extra, only, best, gkey)] = (runs, it.prelude_len, list(it.envs))
     bad = {}
     n = 0
     for (has_extra, only, best, given), (runs, plen, envs) in results.items():
         for (trace, rv, notes), env_after in zip(runs, envs):
             if any(e.kind == "raise" for e in trace):
                 continue
+            if notes:
+                und = und or ("not followed: " + "; ".join(notes)[:200])
+                continue
             n += 1
             pre, post = trace[:plen], trace[plen:]
             scen = {"extra_fields": has_extra, "only_record_best_individuals": only, "is_best": best,
                     "fields": "default" if given is None else ("{}" if not given else list(given))}
+            if given == ("<override>",):
+                scen["extra_fields"] = "{'Phenotype': ...} (overrides a default column)"
             fields = env_after.get("self.fields")
             fkeys = list(fields.keys()) if isinstance(fields, dict) else None
             # every writerow is followed by a flush before the method ends / the next write
@@ -172,7 +180,11 @@ def _recorder_model(ctx: Ctx, c, init: FunctionInfo, reg: FunctionInfo) -> None:
             header = hdr[0].args[0]
             if fkeys is not None and header != fkeys:
                 bad.setdefault("header", (f"the header is {header!r} but the field mapping has the columns {fkeys!r}: rows and header disagree", scen))
-            if given is not None and sorted(map(str, header)) != sorted(list(given) + (["Extra"] if has_extra else [])):
+            if given == ("<override>",):
+                if len(header) != len(set(map(str, header))):
+                    bad.setdefault("header", (f"with an extra field named like the default column 'Phenotype' the header is {header!r}: a column appears twice, "
+                                              f"rows (one cell per column of the mapping) no longer line up with it", scen))
+            elif given is not None and sorted(map(str, header)) != sorted(list(given) + (["Extra"] if has_extra else [])):
                 bad.setdefault("header", (f"configured with fields={'{}' if not given else list(given)}" + (" and one extra field" if has_extra else "") +
                                           f" the header is {header!r}: the log does not hold one column per configured field", scen))
             if has_extra and "Extra" not in header:
@@ -197,6 +209,9 @@ def _recorder_model(ctx: Ctx, c, init: FunctionInfo, reg: FunctionInfo) -> None:
                         if cell != Sym(f"c{k}"):
                             bad.setdefault("fitness", (f"column {col} holds {cell!r} instead of fitness component {k} of the registered individual"
                                                        + (": every FitnessK closure reads the last component (late binding)" if cell == Sym("c2") else ""), scen))
+                    elif col == "Phenotype" and given == ("<override>",):
+                        if cell != Sym("EXTRAFN()"):
+                            bad.setdefault("extractor", (f"column Phenotype, overridden by an extra field, holds {cell!r}, not the value of the extra field's callback", scen))
                     elif col == "Phenotype" and cell != Sym("phen:ind"):
                         bad.setdefault("extractor", (f"column Phenotype holds {cell!r}, not the registered individual's phenotype", scen))
                     elif col == "Custom" and cell != Sym("CUSTOMFN()"):
@@ -233,6 +248,9 @@ def _recorder_model(ctx: Ctx, c, init: FunctionInfo, reg: FunctionInfo) -> None:
         for trace, rv, notes in runs2:
             if any(e.kind == "raise" for e in trace):
                 continue
+            if notes:
+                und = und or notes[0]          # something the model does not follow (a table keyed by an unknown value, ...): no verdict from this run
+                continue
             second = [e for e in trace[it.prelude_len:] if e.kind == "call" and e.name == "writerow"]
             if len(second) == 1 and isinstance(second[0].args[0], list):
                 hdr2 = second[0].args[0]
@@ -254,7 +272,7 @@ def _recorder_model(ctx: Ctx, c, init: FunctionInfo, reg: FunctionInfo) -> None:
         b = bad.get(key)
         ctx.ob(rule, reg if key in ("gate", "rows", "fitness", "extractor") else init, (reg if key in ("gate", "rows", "fitness", "extractor") else init).node,
                f"{c.name}: {desc}", False if b else (None if und else True), b[0] if b else (und or ""), witness=b[1] if b else {"scenarios": n})
-    ctx.floor("C20.R3", n, 8, "interpreted recorder scenarios")
+    ctx.floor("C20.R3", n, 8 if not und else 0, "interpreted recorder scenarios")
 
 
 def is_stub_fn(f) -> bool:
